@@ -36,6 +36,16 @@ def run(tier):
         m = xmlmut.mutate(g, r, ops[0])
         if m:
             docs.append(('gen-mut-%s-%d' % (ops[0], i), m['bytes'], {'ns': 1 if g['cx'].ns else 0}))
+    # parses that end while a reader is being constructed: encoding forced by the application (InputSource::setEncoding)
+    # that the transcoding service does not know, on the document source and on sources supplied by the resolver
+    byname = dict((n, (d, o)) for n, d, o in docs)
+    for base in ('no-dtd', 'dtd-valid-1', 'ext-dtd', 'ext-entity', 'xsd-valid'):
+        d, o = byname[base]
+        docs.append((base + '+forced-unknown-encoding', d, dict(o, forceenc='x-no-such-charset')))
+        docs.append((base + '+forced-latin1', d, dict(o, forceenc='ISO-8859-1')))
+        if base.startswith('ext') or base.startswith('xsd'):
+            docs.append((base + '+entity-forced-unknown-encoding', d, dict(o, entenc='x-no-such-charset')))
+            docs.append((base + '+entity-forced-utf16', d, dict(o, entenc='UTF-16')))
     apis = ['sax1', 'sax2', 'dom', 'domls', 'prog', 'progdom']
     cap = 120 if tier == 'quick' else 400
     stats = collections.Counter()
